@@ -3609,7 +3609,12 @@ func (m *clientMock) ExpectXInfoStream(key string) *ExpectedXInfoStream {
 }
 
 func (m *clientMock) ExpectXInfoStreamFull(key string, count int) *ExpectedXInfoStreamFull {
-	cmd := m.raw.B().XinfoStream().Key(key).Full().Count(int64(count)).Build()
+	var cmd rueidis.Completed
+	if count > 0 {
+		cmd = m.raw.B().XinfoStream().Key(key).Full().Count(int64(count)).Build()
+	} else {
+		cmd = m.raw.B().XinfoStream().Key(key).Full().Build()
+	}
 	e := m.push(match(cmd.Commands()...), defaultMapResult())
 	return &ExpectedXInfoStreamFull{exp: e}
 }
